@@ -504,7 +504,13 @@ func (s *State) execAppend(c *ssa.CallCommon, args []Val, where string) Val {
 				}
 				arr = store(arr, idx, ev.Terms[li])
 			}
-			out.Terms = append(out.Terms, s.define("app", sh[2+li].Sort, arr))
+			na := s.define("app", sh[2+li].Sort, arr)
+			out.Terms = append(out.Terms, na)
+			// redundant lemma with a trigger on the OLD array: membership facts about the old contents carry over to the new slice
+			s.eng.counter++
+			k := sym(fmt.Sprintf("k?%d", s.eng.counter))
+			s.assume(fmt.Sprintf("(forall ((%s Int)) (! (=> (and (<= 0 %s) (< %s %s)) (= (select %s %s) (select %s %s))) :pattern ((select %s %s))))",
+				k, k, k, x.Terms[0], na, k, x.Terms[2+li], k, x.Terms[2+li], k))
 		}
 		return out
 	}
@@ -513,8 +519,8 @@ func (s *State) execAppend(c *ssa.CallCommon, args []Val, where string) Val {
 		na := s.fresh("app", sh[2+li].Sort)
 		s.eng.counter++
 		k := sym(fmt.Sprintf("k?%d", s.eng.counter))
-		s.assume(fmt.Sprintf("(forall ((%s Int)) (! (=> (and (<= 0 %s) (< %s %s)) (= (select %s %s) (select %s %s))) :pattern ((select %s %s))))",
-			k, k, k, x.Terms[0], na, k, x.Terms[2+li], k, na, k))
+		s.assume(fmt.Sprintf("(forall ((%s Int)) (! (=> (and (<= 0 %s) (< %s %s)) (= (select %s %s) (select %s %s))) :pattern ((select %s %s)) :pattern ((select %s %s))))",
+			k, k, k, x.Terms[0], na, k, x.Terms[2+li], k, na, k, x.Terms[2+li], k))
 		s.eng.counter++
 		k2 := sym(fmt.Sprintf("k?%d", s.eng.counter))
 		s.assume(fmt.Sprintf("(forall ((%s Int)) (! (=> (and (<= %s %s) (< %s %s)) (= (select %s %s) (select %s (- %s %s)))) :pattern ((select %s %s))))",
